@@ -12,7 +12,7 @@ From Coq Require Import ZArith List Bool.
 From Coq.Strings Require Import Byte String.
 From EsVerif.Common Require Import Base Bytes.
 From EsVerif.C01 Require Import Framing.
-From EsVerif.C03 Require Import Model Spec Lemmas Proofs Witness.
+From EsVerif.C03 Require Import Model Spec Lemmas Proofs Witness Exec ExecProofs.
 Import ListNotations.
 Open Scope Z_scope.
 Open Scope list_scope.
@@ -122,6 +122,11 @@ Proof. exact asfound_incompatible_binary_refuted. Qed.
 Theorem C03_checker_sound : forall ops a before os,
   hist_check a before ops os = true -> hist_ok a before ops os.
 Proof. exact hist_check_sound. Qed.
+
+(* What the case files evaluate (Exec.run_x, with a reader that does not re-measure the file for
+   every row) is the model. *)
+Theorem C03_exec_run_is_model : forall meta enc ops s, run_x meta enc s ops = run meta enc s ops.
+Proof. exact run_x_eq. Qed.
 
 (* Non-vacuity: a closed 7-operation history (create, write again, read while open, close,
    append by reopening, an incompatible append, read) meets every premise of C03_history and
